@@ -10,7 +10,7 @@ use crate::cy::{self, CV, QErr};
 use crate::engine::{CaseResult, Failure, Obs, RunCtx, fp, temp_dir};
 use crate::hist::open_db;
 use nervusdb::Db;
-use nervusdb::query::{ExecuteOptions, Params};
+use nervusdb::query::{ExecuteOptions, Params, prepare};
 use proptest::prelude::*;
 use serde::{Deserialize, Serialize};
 use std::time::{Duration, Instant};
@@ -252,6 +252,56 @@ impl Env<'_> {
         mk(l[0], l[1], l[2], timeout)
     }
 
+    /// "A failing query stops within a bounded amount of extra work", seen from a consumer
+    /// that keeps pulling after the first error (as `query_collect` and `execute_mixed` do,
+    /// which collect the whole stream before they look at it): the stream has to end.
+    fn drain(&self, o: ExecuteOptions, obs: &mut Obs) -> Result<(), Failure> {
+        const EXTRA: usize = 4096;
+        let desc = format!("{o:?}");
+        let params = Params::with_execute_options(o);
+        let q = self.q;
+        let db = self.db;
+        let r = crate::engine::catch(|| -> Result<Option<(usize, usize, String)>, String> {
+            let prepared = prepare(q).map_err(|e| e.to_string())?;
+            let snap = db.snapshot();
+            let mut it = prepared.execute_streaming(&snap, &params);
+            let mut rows = 0usize;
+            let first = loop {
+                match it.next() {
+                    None => return Ok(None),
+                    Some(Ok(_)) => rows += 1,
+                    Some(Err(e)) => break e.to_string(),
+                }
+            };
+            let mut extra = 0usize;
+            while extra < EXTRA {
+                match it.next() {
+                    None => break,
+                    Some(_) => extra += 1,
+                }
+            }
+            Ok(Some((rows, extra, first)))
+        });
+        match r {
+            Err((loc, m)) => Err(Failure::new(format!("panic@{loc}"), format!("panic while draining after a limit error: {m}\n  query: {q}\n  options: {desc}"))),
+            Ok(Err(e)) => Err(Failure::new("other-error-under-limit", format!("prepare failed: {e}"))),
+            Ok(Ok(None)) => Ok(()),
+            Ok(Ok(Some((rows, extra, first)))) => {
+                obs.class("drained-after-limit-error");
+                obs.class_if(first.contains("imeout"), "drained-after-timeout");
+                obs.sub_eval(None);
+                if extra >= EXTRA {
+                    let kind = if first.contains("imeout") { "timeout" } else { "limit" };
+                    return Err(Failure::new(
+                        format!("error-stream-never-ends:{kind}"),
+                        format!("after {rows} rows and the error `{first}` the result stream yields {EXTRA} further items and still does not end\n  query: {q}\n  options: {desc}"),
+                    ));
+                }
+                Ok(())
+            }
+        }
+    }
+
     /// Smallest limit value of dimension `d` (others generous) for which the query completes.
     fn threshold(&self, d: usize, obs: &mut Obs) -> Result<usize, Failure> {
         if matches!(self.run(self.dim(d, 0, 0), obs)?, Out::Complete) {
@@ -270,7 +320,8 @@ impl Env<'_> {
 }
 
 pub fn run(ctx: &mut RunCtx) {
-    ctx.assume("soft_timeout_ms is either 0 (disabled) or 3.6e9 ms, so the wall clock never decides an outcome; elapsed time is only checked against 10x the unlimited run + 5 s");
+    ctx.assume("soft_timeout_ms is 0 (disabled), 3.6e9 ms, or 1 ms; with 1 ms the wall clock decides which of the two allowed outcomes occurs (complete result or limit error), never whether the run passes; elapsed time is only checked against 10x the unlimited run + 5 s");
+    ctx.assume("'stops within a bounded amount of extra work' is also read from the consumer's side: after the first limit error the result stream must end within 4096 further pulls");
     ctx.assume("results are compared as multisets of rows; lists inside rows (collect) are compared in order because the input order of every generated pipeline is deterministic");
     let cases = ctx.tier.pick(700, 20_000);
     let test = |c: &Case, obs: &mut Obs| -> CaseResult {
@@ -355,6 +406,17 @@ pub fn run(ctx: &mut RunCtx) {
             }
             below |= any_below;
             let out = env.run(mk(l[0], l[1], l[2], if o.huge_timeout { HUGE_MS } else { 0 }), obs)?;
+            if matches!(out, Out::Limit) {
+                env.drain(mk(l[0], l[1], l[2], 0), obs)?;
+            }
+            // a time limit of 1 ms: the clock decides whether it fires, the oracle accepts both
+            // outcomes (complete result or limit error), and a consumer that keeps pulling after
+            // the error must see the stream end
+            if o.huge_timeout && r.len() >= 50 {
+                obs.class("run-with-1ms-timeout");
+                env.run(mk(l[0], l[1], l[2], 1), obs)?;
+                env.drain(mk(l[0], l[1], l[2], 1), obs)?;
+            }
             match out {
                 Out::Complete => {
                     obs.class_if(any_below, "complete-although-below-single-threshold");
@@ -373,7 +435,7 @@ pub fn run(ctx: &mut RunCtx) {
     };
     ctx.explore(
         "pipelines",
-        "generated query pipelines (source: UNWIND range, range x range, cartesian product, variable-length expansion on a dense graph, list comprehension; 0-2 middle stages: filter, ORDER BY [LIMIT], DISTINCT, collect+UNWIND, CALL subquery, OPTIONAL MATCH + WHERE, fan-out, range inside a predicate; final: rows, aggregates, grouped collect, ORDER BY SKIP LIMIT, DISTINCT, list projection, UNION) on a generated dense graph; per case: complete result under generous limits, bisection of every limit dimension (each probe checked), then generated limit combinations around the thresholds with timeout 0 or huge; each run must be the complete result or a ResourceLimitExceeded error; non-trivial = at least one run had a limit below what the complete result needed (distinct = distinct (query, options) pairs that failed with the limit error)",
+        "generated query pipelines (source: UNWIND range, range x range, cartesian product, variable-length expansion on a dense graph, list comprehension; 0-2 middle stages: filter, ORDER BY [LIMIT], DISTINCT, collect+UNWIND, CALL subquery, OPTIONAL MATCH + WHERE, fan-out, range inside a predicate; final: rows, aggregates, grouped collect, ORDER BY SKIP LIMIT, DISTINCT, list projection, UNION) on a generated dense graph; per case: complete result under generous limits, bisection of every limit dimension (each probe checked), then generated limit combinations around the thresholds with timeout 0, huge or (results of >= 50 rows) 1 ms; each run must be the complete result or a ResourceLimitExceeded error, and after a limit error the stream must end within 4096 further pulls; non-trivial = at least one run had a limit below what the complete result needed (distinct = distinct (query, options) pairs that failed with the limit error)",
         cases,
         case,
         test,
